@@ -280,9 +280,18 @@ def _worker(args):
         return [{"type": ty, "query": "field", "verdict": "error", "detail": traceback.format_exc()[-1200:], "time_s": 0}]
 
 
-def run(L=6, jobs=14, only=None):
+# field types on which every round-trip query is answered within the time limit (drawn up on the pinned tree; the other types
+# are outside this check's claim: their queries come back `unknown` or their parser uses operations that are not encoded)
+DECIDED = ["Field12", "Field20", "Field21C", "Field21D", "Field21E", "Field21F", "Field21NoOption", "Field21R", "Field23B", "Field25A",
+           "Field25NoOption", "Field26T", "Field50C", "Field50L", "Field50NoOption", "Field52C", "Field53B", "Field54B", "Field55B",
+           "Field56C", "Field57C", "Field58A", "Field70", "Field71A", "Field71B", "Field72", "Field77B", "Field77T"]
+
+
+def run(L=6, jobs=14, only=None, decided_only=False):
     prog = Program(layout_mod.extract_ast())
     tags, bad = layout_mod.field_tags(prog)
+    if decided_only:
+        only = DECIDED
     types = [t for t in sorted(tags) if not only or t in only]
     with mp.Pool(min(jobs, max(1, len(types)))) as pool:
         outs = pool.map(_worker, [(t, tags[t], L) for t in types], chunksize=1)
